@@ -141,3 +141,70 @@ package definition
 //@   ensures err == nil ==> context.proxyHas == store(old(context.proxyHas), entry.Address, true) && context.proxyAllowed == store(old(context.proxyAllowed), entry.Address, entry.Allowed)
 //@   ensures err != nil ==> context.proxyHas == old(context.proxyHas) && context.proxyAllowed == old(context.proxyAllowed)
 //@   modifies context.proxyHas, context.proxyAllowed
+
+// ---- QSR deposits held by the pillar / sentinel contracts: owner -> amount (an absent record reads as zero) -------------------
+//@ model github.com/zenon-network/go-zenon/common/db:DB qsrDep map[arr]int
+
+//@ func GetQsrDeposit(context, address) -> (deposit, err)
+//@   trusted
+//@   requires address != nil
+//@   ensures err == nil ==> deposit != nil && fresh(deposit) && deposit.Address != nil && deref(deposit.Address) == deref(address) && deposit.Qsr != nil && fresh(deposit.Qsr) && val(deposit.Qsr) == context.qsrDep[deref(address)]
+//@   ensures err == nil ==> val(deposit.Qsr) >= 0
+//@   ensures err != nil ==> deposit == nil
+//@   modifies nothing
+
+//@ func QsrDeposit.Save(deposit, context) -> (err)
+//@   trusted
+//@   requires deposit != nil && deposit.Qsr != nil && deposit.Address != nil
+//@   ensures err == nil ==> context.qsrDep == store(old(context.qsrDep), deref(deposit.Address), val(deposit.Qsr))
+//@   ensures err != nil ==> context.qsrDep == old(context.qsrDep)
+//@   modifies context.qsrDep
+
+//@ func QsrDeposit.Delete(deposit, context) -> (err)
+//@   trusted
+//@   requires deposit != nil && deposit.Address != nil
+//@   ensures err == nil ==> context.qsrDep == store(old(context.qsrDep), deref(deposit.Address), 0)
+//@   ensures err != nil ==> context.qsrDep == old(context.qsrDep)
+//@   modifies context.qsrDep
+
+// ---- pillar contract: name -> (owner, collateral, registration time, revoke time) ------------------------------------------
+//@ model github.com/zenon-network/go-zenon/common/db:DB pillarHas map[str]bool
+//@ model github.com/zenon-network/go-zenon/common/db:DB pillarOwner map[str]arr
+//@ model github.com/zenon-network/go-zenon/common/db:DB pillarAmt map[str]int
+//@ model github.com/zenon-network/go-zenon/common/db:DB pillarReg map[str]int
+//@ model github.com/zenon-network/go-zenon/common/db:DB pillarRevoked map[str]int
+
+//@ func GetPillarInfo(context, name) -> (pillar, err)
+//@   trusted
+//@   ensures err == nil ==> pillar != nil && fresh(pillar) && context.pillarHas[name] && pillar.Name == name && pillar.StakeAddress == context.pillarOwner[name] && pillar.Amount != nil && val(pillar.Amount) == context.pillarAmt[name] && pillar.RegistrationTime == context.pillarReg[name] && pillar.RevokeTime == context.pillarRevoked[name]
+//@   ensures err != nil ==> pillar == nil
+//@   ensures err == constants.ErrDataNonExistent <==> !context.pillarHas[name]
+//@   modifies nothing
+
+//@ func PillarInfo.Save(pillar, context) -> (err)
+//@   trusted
+//@   requires pillar != nil && pillar.Amount != nil
+//@   ensures err == nil ==> context.pillarHas == store(old(context.pillarHas), pillar.Name, true) && context.pillarOwner == store(old(context.pillarOwner), pillar.Name, pillar.StakeAddress) && context.pillarAmt == store(old(context.pillarAmt), pillar.Name, val(pillar.Amount)) && context.pillarReg == store(old(context.pillarReg), pillar.Name, pillar.RegistrationTime) && context.pillarRevoked == store(old(context.pillarRevoked), pillar.Name, pillar.RevokeTime)
+//@   ensures err != nil ==> context.pillarHas == old(context.pillarHas) && context.pillarOwner == old(context.pillarOwner) && context.pillarAmt == old(context.pillarAmt) && context.pillarReg == old(context.pillarReg) && context.pillarRevoked == old(context.pillarRevoked)
+//@   modifies MF:common/db.DB.pillar
+
+// ---- sentinel contract: owner -> (ZNN collateral, QSR collateral, registration time, revoke time) ------------------------------
+//@ model github.com/zenon-network/go-zenon/common/db:DB sentinelHas map[arr]bool
+//@ model github.com/zenon-network/go-zenon/common/db:DB sentinelZnn map[arr]int
+//@ model github.com/zenon-network/go-zenon/common/db:DB sentinelQsr map[arr]int
+//@ model github.com/zenon-network/go-zenon/common/db:DB sentinelReg map[arr]int
+//@ model github.com/zenon-network/go-zenon/common/db:DB sentinelRevoked map[arr]int
+
+//@ func GetSentinelInfoByOwner(context, address) -> (sentinel)
+//@   trusted
+//@   ensures sentinel != nil <==> context.sentinelHas[address]
+//@   ensures sentinel != nil ==> fresh(sentinel) && sentinel.SentinelInfoKey.Owner == address && sentinel.ZnnAmount != nil && fresh(sentinel.ZnnAmount) && sentinel.QsrAmount != nil && fresh(sentinel.QsrAmount) && sentinel.ZnnAmount != sentinel.QsrAmount
+//@   ensures sentinel != nil ==> val(sentinel.ZnnAmount) == context.sentinelZnn[address] && val(sentinel.QsrAmount) == context.sentinelQsr[address] && sentinel.RegistrationTimestamp == context.sentinelReg[address] && sentinel.RevokeTimestamp == context.sentinelRevoked[address]
+//@   modifies nothing
+
+//@ func SentinelInfo.Save(sentinel, context)
+//@   trusted
+//@   requires sentinel != nil && sentinel.ZnnAmount != nil && sentinel.QsrAmount != nil
+//@   ensures context.sentinelHas == store(old(context.sentinelHas), sentinel.SentinelInfoKey.Owner, true) && context.sentinelZnn == store(old(context.sentinelZnn), sentinel.SentinelInfoKey.Owner, val(sentinel.ZnnAmount)) && context.sentinelQsr == store(old(context.sentinelQsr), sentinel.SentinelInfoKey.Owner, val(sentinel.QsrAmount))
+//@   ensures context.sentinelReg == store(old(context.sentinelReg), sentinel.SentinelInfoKey.Owner, sentinel.RegistrationTimestamp) && context.sentinelRevoked == store(old(context.sentinelRevoked), sentinel.SentinelInfoKey.Owner, sentinel.RevokeTimestamp)
+//@   modifies MF:common/db.DB.sentinel
